@@ -389,7 +389,9 @@ type Layout struct {
 	SepB  []string `json:"sep_b"`
 }
 
-var seps = []string{" ", "  ", "\n", "\t", " \n ", "\n\n", " ;c\n", ";; x y (\n", "\r\n", " ; \"\n", "\n\n\n"}
+var seps = []string{" ", "  ", "\n", "\t", " \n ", "\n\n", " ;c\n", ";; x y (\n", "\r\n", " ; \"\n", "\n\n\n",
+	// every character the scanner skips as white space separates tokens equally
+	"\f", "\v", "\u0085", "\u00a0", "\u2028", "\u2029", "\u3000", "\u1680", "\u2003", " \f", "\v "}
 
 // glue reports whether two adjacent units need a separator to stay separate
 // lexemes.  Brackets delimit themselves; a quote prefix glues to what follows
@@ -440,6 +442,9 @@ func genAtom(t *rapid.T) string {
 		return fmt.Sprintf("%q", gen.GenBytesString().Draw(t, "s"))
 	case 3:
 		return rapid.SampledFrom([]string{"#xFF", "#o17", "1e5", "1.50", "\"\"\"raw\"\"\"", "0.5", "-0.0", "1E3", "#x0"}).Draw(t, "lit")
+	case 4:
+		// sign-like symbols: what follows must stay a separate token under any separator
+		return rapid.SampledFrom([]string{"-", "-", "+", "--", "-a", "."}).Draw(t, "signsym")
 	default:
 		return gen.GenSymbolName().Draw(t, "sym")
 	}
